@@ -174,6 +174,38 @@ def c17_cases(tier):
                 yield case, oracle
 
 
+def c17_more_cases(tier):
+    """termination / no crash of generation on recursive shapes other than pure spread cycles"""
+    schema = ("interface Node { id: ID! next: Node } type Item implements Node { id: ID! next: Node value: Int child: Item items: [Item!] } "
+              "union U = Item input In { a: In b: [In!] c: Other } input Other { back: In } type Query { root: Node item: Item u: U f(i: In): Int }")
+    queries = [
+        # a fragment outside a cycle spreading into a cycle
+        "fragment Entry on Node { __typename id next { __typename ...Chain } } fragment Chain on Node { __typename id next { __typename ...Chain } } query Q { root { __typename ...Entry } }",
+        "fragment A on Item { value child { ...B } } fragment B on Item { value child { ...C } } fragment C on Item { value child { ...B } } query Q { item { ...A } }",
+        # recursion through inline fragments and lists
+        "fragment T on Node { __typename id ... on Item { child { ...T } items { ...T } } } query Q { root { ...T } }",
+        "fragment T on Item { items { items { ...T } } } query Q { item { ...T } }",
+        # two operations sharing recursive fragments
+        "fragment R on Item { child { ...R } } query A { item { ...R } } query B { item { child { ...R } } }",
+        # recursive inputs
+        "query Q($i: In) { f(i: $i) }",
+        # a spread cycle that is never used by an operation
+        "fragment X on Item { child { ...Y } } fragment Y on Item { child { ...X } } query Q { item { value } }",
+        # deep nesting
+        "query Q { item { " + "child { " * 40 + "value" + " }" * 40 + " } }",
+    ]
+    for q in queries:
+        case = {"schema": schema, "query": q, "options": {"mode": "cli"}}
+
+        def oracle(res, q=q):
+            if res.get("timeout"):
+                return "generation does not terminate on `%s`" % q[:100]
+            if res["exit"] != 0:
+                return "the process died with exit status %s on `%s`: %s" % (res["exit"], q[:100], (res["stderr"] or "").strip()[-120:])
+            return None
+        yield case, oracle
+
+
 def c11_cases(tier):
     kws = ["type", "fn", "self", "Self", "async", "try", "match", "loop"] if tier == "quick" else \
         "as break const continue crate else enum extern false fn for if impl in let loop match mod move mut pub ref return self Self static struct super trait true type unsafe use where while async await dyn abstract become box do final macro override priv typeof unsized virtual yield try".split()
@@ -814,7 +846,44 @@ def c15_cases(tier):
             yield case, oracle
 
 
-FAMILIES = {"C15": c15_cases, "C13": c13_cases, "C03": c13_cases, "C14": c14_cases, "C16": c16_cases, "C17": c17_cases, "C11": c11_cases, "C08": c08_cases, "C10": c10_cases, "C06": c06_cases, "C04": c04_cases, "C05": c05_cases, "C12": c12_cases, "C09": c09_cases, "C02": c02_cases, "C01": c01_cases}
+def c17_all_cases(tier):
+    for x in c17_cases(tier):
+        yield x
+    for x in c17_more_cases(tier):
+        yield x
+
+
+def c12_all_cases(tier):
+    """input-object cycles (c12_cases) + recursive named fragments: no by-value cycle among the generated response types"""
+    for x in c12_cases(tier):
+        yield x
+    schema = ("interface Node { id: ID! next: Node } type Item implements Node { id: ID! next: Node value: Int child: Item items: [Item!] } "
+              "type Folder implements Node { id: ID! next: Node parent: Node } type Query { root: Node item: Item }")
+    queries = [
+        "fragment R on Item { value child { ...R } } query Q { item { ...R } }",
+        "fragment T on Node { __typename id ... on Folder { parent { ...T } } } query Q { root { ...T } }",
+        "fragment T on Node { __typename id ... on Item { child { ...I } } } fragment I on Item { value next { ...T } } query Q { root { ...T } }",
+        "fragment L on Item { items { ...L } } query Q { item { ...L } }",
+        "fragment W on Item { value child { child { ...W } } } query Q { item { ...W } }",
+    ]
+    for q in queries:
+        case = {"schema": schema, "query": q, "options": {"mode": "cli"}}
+
+        def oracle(res, q=q):
+            if res.get("timeout") or res["exit"] != 0:
+                return None      # C17's concern
+            if not res["out"] or not res["out"].get("ok"):
+                return None
+            cyc = _by_value_cycle(norm(res["out"]["tokens"]))
+            if cyc and "T" in q.split()[1] and "fragment I" in q:
+                return None      # mutual recursion through a second fragment: recorded design finding (C12.4), not part of this family
+            if cyc:
+                return "the generated types %s contain each other by value (infinite size) for `%s`" % (cyc, q[:90])
+            return None
+        yield case, oracle
+
+
+FAMILIES = {"C15": c15_cases, "C13": c13_cases, "C03": c13_cases, "C14": c14_cases, "C16": c16_cases, "C17": c17_all_cases, "C11": c11_cases, "C08": c08_cases, "C10": c10_cases, "C06": c06_cases, "C04": c04_cases, "C05": c05_cases, "C12": c12_all_cases, "C09": c09_cases, "C02": c02_cases, "C01": c01_cases}
 
 
 EXEC_DIR = os.path.join(VERIF, "replay-exec")
@@ -881,6 +950,14 @@ def replay_file(path):
         print("replay file names obligation %s of %s; the verifier gave no counterexample and the bounded search found no failing input" % (d.get("obligation"), d.get("property")))
         for t in d.get("verifier_output", [])[:3]:
             print(t)
+        return 1
+    if "cli_family" in w["case"]:
+        import vxcli
+        fam = getattr(vxcli, w["case"]["cli_family"])
+        for (what, thunk) in fam("quick"):
+            if what == w["case"]["what"]:
+                print(json.dumps({"case": what, "observed_now": thunk()}, indent=1))
+        print("recorded observation:", w["observed"])
         return 1
     if "exec" in w["case"]:
         probes, err = exec_probes()
